@@ -18,7 +18,20 @@ type FuncResult struct {
 	Notes []string
 }
 
-func (p *Program) verifyFunc(name string) *FuncResult {
+// verifyFuncViews verifies a function once per proof view of its contract.
+func (p *Program) verifyFuncViews(name string) []*FuncResult {
+	ct := p.CS.Funcs[name]
+	if ct == nil {
+		return []*FuncResult{p.verifyFunc(name, "")}
+	}
+	var out []*FuncResult
+	for _, v := range ct.views() {
+		out = append(out, p.verifyFunc(name, v))
+	}
+	return out
+}
+
+func (p *Program) verifyFunc(name string, view string) *FuncResult {
 	res := &FuncResult{Name: name}
 	fn := p.Funcs[name]
 	if fn == nil {
@@ -27,8 +40,13 @@ func (p *Program) verifyFunc(name string) *FuncResult {
 	}
 	ct := p.CS.Funcs[name]
 	e := newEnc(p, name)
+	e.view = view
 	res.Enc = e
-	lastEnc[name] = e
+	if view == "" {
+		lastEnc[name] = e
+	} else {
+		res.Name = name + "@" + view
+	}
 	defer func() {
 		if r := recover(); r != nil {
 			res.Errs = append(res.Errs, fmt.Sprintf("internal error while encoding %s: %v", name, r))
@@ -88,11 +106,22 @@ func (p *Program) verifyFunc(name string) *FuncResult {
 	}
 	f.useLemmas("true", st)
 	results, exit, retGuard := f.run("true", st, args)
+	_ = results
 	if exit != nil && ct != nil {
-		env := &specEnv{f: f, st: exit, old: f.entry, results: results}
+		// each postcondition is checked separately at every return site (no merged exit state in the VC)
 		for _, en := range ct.Ensures {
-			t := f.specBool(en.Expr, env)
-			e.oblige("ensures", fmt.Sprintf("%s:ensures:%s", name, clauseName(en)), f.clauseProps(en), retGuard, t, p.pos(fn.Pos()), en.Text)
+			if !e.inView(en) || (en.View == "" && !e.primary()) {
+				continue
+			}
+			for ri, r := range f.rets {
+				env := &specEnv{f: f, st: r.state, old: f.entry, results: r.results}
+				t := f.specBool(en.Expr, env)
+				name := fmt.Sprintf("%s:ensures:%s", name, clauseName(en))
+				if len(f.rets) > 1 {
+					name += fmt.Sprintf("@ret%d", ri+1)
+				}
+				e.obligeNoAssume("ensures", name, f.clauseProps(en), r.guard, t, p.pos(fn.Pos()), en.Text)
+			}
 		}
 		if len(ct.Ensures) > 0 {
 			e.cover(name+":vacuity:return-reachable", ct.Props, retGuard)
@@ -160,25 +189,19 @@ func (f *Frame) useLemmas(guard string, st *State) {
 			continue
 		}
 		env := &specEnv{f: f, st: st, old: st, bound: map[string]Val{}, seqs: map[string]*seqView{}, callSite: true, names: map[string]Val{}}
-		var binders []string
-		var ranges []string
+		// build "forall params :: requires ==> ensures" and translate it like any contract quantifier
+		var vars []SVar
 		for _, prm := range lf.Params {
-			e.n++
-			vn := fmt.Sprintf("%s!l%d", sanitize(prm.Name()), e.n)
-			binders = append(binders, fmt.Sprintf("(%s %s)", vn, e.tt().sortOf(prm.Type())))
-			env.bound[prm.Name()] = Val{T: vn, Typ: prm.Type()}
-			if rc := e.tt().rangeConstraint(vn, prm.Type()); rc != "" && isInteger(prm.Type()) {
-				ranges = append(ranges, rc)
-			}
+			vars = append(vars, SVar{prm.Name(), e.tt().typeString(prm.Type())})
 		}
-		var reqs, enss []string
+		var pre, post SExpr = SBool{true}, SBool{true}
 		for _, r := range lc.Requires {
-			reqs = append(reqs, f.specBool(r.Expr, env))
+			pre = SBin{"&&", pre, r.Expr}
 		}
 		for _, en := range lc.Ensures {
-			enss = append(enss, f.specBool(en.Expr, env))
+			post = SBin{"&&", post, en.Expr}
 		}
-		body := implies(and(append(ranges, reqs...)...), and(enss...))
-		e.assume(guard, fmt.Sprintf("(forall (%s) %s)", strings.Join(binders, " "), body))
+		q := SQuant{Forall: true, Vars: vars, Body: SBin{"==>", pre, post}}
+		e.assume(guard, f.specBool(q, env))
 	}
 }
